@@ -186,6 +186,17 @@ def run_unit(unit, workdir, rlimit, extra_args=(), auto_items=None, _depth=0):
         rec.update(dict(fn=fname, label=label, props=props, clause=ctext, repo_loc=src_loc))
         rec['class'] = 'failed'
         res['failures'].append(rec)
+    # a function one of whose (optional) proof hints could not be placed is not decided by a failing proof: the failure may
+    # come from the missing hint, not from the code
+    dropped = set(d['function'] for d in g.report.get('dropped_hints', []))
+    if dropped:
+        keep = []
+        for rec in res['failures']:
+            if rec.get('fn') in dropped:
+                res['undecided'].append('a proof hint of %s could not be placed (its anchor statement is gone) and an obligation of that function then failed: %s' % (rec['fn'], rec['label']))
+            else:
+                keep.append(rec)
+        res['failures'] = keep
     if rc != 0 and not res['failures'] and not res['undecided']:
         res['undecided'].append('verus exited %d without a classifiable diagnostic: %s' % (rc, (err or out)[-400:]))
     if rc == 0 and res['errors'] == 0 and res['verified'] == 0:
